@@ -749,14 +749,15 @@ func init() {
 }
 
 type e2sched struct {
-	E2      e2p      `json:"e2"`
-	Setup   []pact   `json:"setup,omitempty"`
-	Conc    []pact   `json:"conc"`
-	AtPoint []string `json:"at_point,omitempty"`
-	AtEnd   []string `json:"at_end"`
-	NoClose bool     `json:"no_close,omitempty"`
-	Policy  *spolicy `json:"policy,omitempty"`
-	GiveUps int      `json:"give_ups,omitempty"`
+	E2         e2p      `json:"e2"`
+	Setup      []pact   `json:"setup,omitempty"`
+	Conc       []pact   `json:"conc"`
+	AtPoint    []string `json:"at_point,omitempty"`
+	AtEnd      []string `json:"at_end"`
+	NoClose    bool     `json:"no_close,omitempty"`
+	Policy     *spolicy `json:"policy,omitempty"`
+	GiveUps    int      `json:"give_ups,omitempty"`
+	RepoPoints bool     `json:"repo_points,omitempty"`
 }
 
 // spolicy mirrors w.schedPolicy.
@@ -803,6 +804,10 @@ func init() {
 		crossed2 := diff2
 		crossed2.Setup = []pact{inc(0), {Op: "inc", R: 0, P: 1, T: "k2|"}, inc(1), {Op: "inc", R: 1, P: 1, T: "k2|"}}
 		crossed2.Conc = []pact{{Op: "sync", R: 0}, {Op: "sync", R: 1, K: "rev"}}
+		// different keys with the repository layer's statements as scheduling points: what one request has prepared for its
+		// next database command is not touched by another request
+		diffRepo := diff2
+		diffRepo.RepoPoints = true
 		fresh := e2sched{E2: e2p{Clients: 2, Type: "counter", Tolerant: true}, Conc: []pact{{Op: "opensync", R: 0, T: "k1", K: "soc"}, {Op: "opensync", R: 1, T: "k1", K: "soc"}}, AtEnd: append([]string{"onedoc"}, end[1:]...)} // no "serial": the datatype ids are drawn during the concurrent phase and so named by the schedule
 		// a caller gives up in the middle of its call (its context is cancelled while the handler works): one such event
 		// per execution, at every decision point at which a call is being served
@@ -821,11 +826,11 @@ func init() {
 		if tier == "quick" {
 			p.BudgetS = 600
 			p.Runs = []Run{{Name: "one-request-held-70-other-keys-served", Check: "C12", Kind: "lockbuckets", Cases: true, Params: map[string]interface{}{}, Shards: 3},
-				schedRun("same-key-2-caller-gives-up-b2", 2, giveup2, 0), schedRun("fresh-key-2-caller-gives-up-b2", 2, giveupFresh, 0), schedRun("patch-vs-syncs-b2", 2, patchSync, 0), schedRun("connect-vs-syncs-b2", 2, connectSync, 0), schedRun("same-key-2-b3", 3, same2, 0), schedRun("different-keys-2-b2", 2, diff2, 0), schedRun("two-keys-crossed-order-b2", 2, crossed2, 0), schedRun("fresh-key-2-b3", 3, fresh, 0), schedRun("same-key-3-b2", 2, same3, 0)}
+				schedRun("same-key-2-caller-gives-up-b2", 2, giveup2, 0), schedRun("fresh-key-2-caller-gives-up-b2", 2, giveupFresh, 0), schedRun("patch-vs-syncs-b2", 2, patchSync, 0), schedRun("connect-vs-syncs-b2", 2, connectSync, 0), schedRun("same-key-2-b3", 3, same2, 0), schedRun("different-keys-2-b2", 2, diff2, 0), schedRun("different-keys-2-repository-statements-b1", 1, diffRepo, 0), schedRun("two-keys-crossed-order-b2", 2, crossed2, 0), schedRun("fresh-key-2-b3", 3, fresh, 0), schedRun("same-key-3-b2", 2, same3, 0)}
 		} else {
 			p.BudgetS = 3400
 			p.Runs = []Run{{Name: "one-request-held-70-other-keys-served", Check: "C12", Kind: "lockbuckets", Cases: true, Params: map[string]interface{}{}, Shards: 3},
-				schedRun("same-key-2-caller-gives-up-b3", 3, giveup2, 0), schedRun("fresh-key-2-caller-gives-up-b3", 3, giveupFresh, 0), schedRun("patch-vs-syncs-b3", 3, patchSync, 0), schedRun("connect-vs-syncs-b3", 3, connectSync, 0), schedRun("same-key-2-b4", 4, same2, 0), schedRun("different-keys-2-b3", 3, diff2, 0), schedRun("two-keys-crossed-order-b3", 3, crossed2, 0), schedRun("fresh-key-2-b4", 4, fresh, 0), schedRun("same-key-3-b3", 3, same3, 0), schedRun("same-key-4-b1", 1, same4, 0)}
+				schedRun("same-key-2-caller-gives-up-b3", 3, giveup2, 0), schedRun("fresh-key-2-caller-gives-up-b3", 3, giveupFresh, 0), schedRun("patch-vs-syncs-b3", 3, patchSync, 0), schedRun("connect-vs-syncs-b3", 3, connectSync, 0), schedRun("same-key-2-b4", 4, same2, 0), schedRun("different-keys-2-b3", 3, diff2, 0), schedRun("different-keys-2-repository-statements-b2", 2, diffRepo, 0), schedRun("two-keys-crossed-order-b3", 3, crossed2, 0), schedRun("fresh-key-2-b4", 4, fresh, 0), schedRun("same-key-3-b3", 3, same3, 0), schedRun("same-key-4-b1", 1, same4, 0)}
 		}
 		return p
 	}
